@@ -116,8 +116,24 @@ func hrRespCell(t *testing.T, rec *Rec, g *Gates, scn string, cell map[string]an
 	o2.Size, o2.Bin, o2.Class = 6, false, 0
 	w.Send(s.Sid, o2)
 	lastBatch = nil
+	tail, _ := cell["tail"].(string)
+	if tail == "close" {
+		// a graceful Close with the batch still buffered waits for the drain; the poll's flush hands the batch to the writer
+		// goroutine (held at its first statement), the drain lets the Close go on: the transport is not writable, the orderly close
+		// is buffered, and the writer appends the close packet to the batch it is about to write
+		if so := w.Sock(s.Sid); so != nil {
+			so.Close(false)
+		}
+		synctest.Wait()
+		g.Park("polling.send.enter", true)
+	}
 	r := w.StartReq("poll", s, ReqOpt{Hdr: aeHeader(ae)})
 	synctest.Wait()
+	if tail == "close" {
+		g.Park("polling.send.enter", false)
+		g.ReleaseAll()
+		synctest.Wait()
+	}
 	obs["status"] = r.Status
 	if r.Status == 200 {
 		_, info := w.decodePollBody(s, r.Hdr, r.Body)
@@ -126,10 +142,14 @@ func hrRespCell(t *testing.T, rec *Rec, g *Gates, scn string, cell map[string]an
 		obs["jsonpOk"], obs["scriptSafe"] = info["jsonpOk"], info["scriptSafe"]
 		obs["jdigits"] = chars(info["jdigits"].(string))
 		// decoded packets vs. the packets the server handed to the transport for this cycle
-		match := len(r.Pkts) == len(lastBatch)
+		want := lastBatch
+		if tail == "close" {
+			want = append(append([]*packet.Packet(nil), lastBatch...), &packet.Packet{Type: packet.CLOSE})
+		}
+		match := len(r.Pkts) == len(want)
 		intact := true
 		for i := 0; match && i < len(r.Pkts); i++ {
-			if string(lastBatch[i].Type) != r.Pkts[i].Type {
+			if string(want[i].Type) != r.Pkts[i].Type {
 				match = false
 			}
 			if r.Pkts[i].Type == "message" {
@@ -184,6 +204,13 @@ func hrCookieCell(t *testing.T, rec *Rec, g *Gates, scn string, cell map[string]
 			g.Park(holdAt, true)
 		}
 		s, r := w.Handshake(4, false, false, ReqOpt{})
+		if other, _ := cell["other"].(bool); hold && other {
+			// another client's handshake is carried out from request to response while this one is held
+			g.Park(holdAt, false)
+			w.Handshake(4, false, false, ReqOpt{})
+			synctest.Wait()
+			nInit, nHdr = nInit-1, nHdr-1 // (its own two events are not this response's)
+		}
 		if hold {
 			g.Park(holdAt, false)
 			g.ReleaseAll()
